@@ -16,15 +16,14 @@ for name, storage, f, plen, tail, nxt, tier in S.accept_shapes():
 F2 = "dlt_iter"
 IT = []
 for nm, desc, tiers, cost in (
-        ("c01_it_st_m0_g0_t2", "storage, nothing detected yet, 0 garbage, 2 tail", Q, 50),
-        ("c01_it_st_m1_g0_t2", "storage, storage detected, 0 garbage, 2 tail", Q, 50),
-        ("c01_it_st_m1_g1_t2", "storage, storage detected, 1 garbage, 2 tail", Q, 100),
+        ("c01_it_st_m0_g0_t2", "storage, nothing detected yet, 0 garbage, 2 tail", T, 500),
+        ("c01_it_st_m1_g0_t2", "storage, storage detected, 0 garbage, 2 tail", Q, 400),
+        ("c01_it_st_m1_g1_t2", "storage, storage detected, 1 garbage, 2 tail", T, 500),
         ("c01_it_st_m1_g2_t3", "storage, storage detected, 2 garbage, 3 tail", T, 200),
         ("c01_it_st_m1_g3_t2", "storage, storage detected, 3 garbage, 2 tail", T, 300),
-        ("c01_it_se_m0_g0_t14", "serial, nothing detected yet, 0 garbage, 14 tail", Q, 100),
-        ("c01_it_se_m0_g0_t2", "serial, nothing detected yet, 0 garbage, 2 tail (stream shorter than 20 B)", Q, 50),
-        ("c01_it_se_m2_g0_t2", "serial, serial detected, 0 garbage, 2 tail", Q, 50),
-        ("c01_it_se_m2_g1_t2", "serial, serial detected, 1 garbage, 2 tail", Q, 100),
+        ("c01_it_se_m0_g0_t2", "serial, nothing detected yet, 0 garbage, 2 tail (stream shorter than 20 B)", Q, 400),
+        ("c01_it_se_m2_g0_t2", "serial, serial detected, 0 garbage, 2 tail", Q, 300),
+        ("c01_it_se_m2_g1_t2", "serial, serial detected, 1 garbage, 2 tail", T, 400),
         ("c01_it_se_m2_g3_t3", "serial, serial detected, 3 garbage, 3 tail", T, 300)):
     IT.append(inst(F2, nm, tiers, desc + "; index/bytes_processed/bytes_skipped symbolic", "L3 iterator step: message yielded, counters exact, mode set, short tail left", covers=1,
                    timeout=3000, mem_gb=24, cost=cost,
@@ -40,6 +39,7 @@ PROP = {
              "counters exact, short tail left unconsumed. The composition to arbitrarily long streams is the induction over stream position (paper argument in DESIGN §2 C01). Bounds: payload <= 5 B, tail <= 8 B, garbage <= 3 B per step.",
         note=TB + "payload bytes beyond 5 are one Vec::from copy (outside); reading through LowMarkBufReader is C04; logging off (log = None).",
         technique="bounded model checking of the real code (Kani/CBMC): shape-enumerated accept/reject lemmas + inductive iterator step"),
+    "jobs": {"quick": 7, "thorough": 5},
     "inject": [("src/dlt/mod.rs", "dlt_frame.rs"), ("src/utils/dltmessageiterator.rs", "dlt_iter.rs")],
     "functions": ["dlt::parse_dlt_with_storage_header", "dlt::parse_dlt_with_serial_header", "DltMessage::from_headers", "DltStorageHeader::{from_buf,reception_time_us}",
                   "DltStandardHeader::{from_buf,std_ext_header_size,ecu,timestamp_dms}", "DltExtendedHeader::from_buf", "is_storage_header_pattern", "is_serial_header_pattern",
